@@ -17,6 +17,8 @@ namespace c04
         K_SCATTER, // reg_in lanes -> base[idx[i]]
         K_CPLX2_LOAD, // split complex load: lanes reals at p, lanes imaginaries at p2 (p2 may be null: imaginary part is 0) -> real ++ imag in reg_out
         K_CPLX2_STORE, // split complex store: real lanes -> p, imaginary lanes -> p2
+        K_CCVT_LOAD, // converting complex load: lanes complex<U> elements at p -> batch<complex<T>>: real ++ imag register bytes in reg_out
+        K_CCVT_STORE, // converting complex store: real ++ imag of batch<complex<T>> from reg_in -> lanes complex<U> elements at p
         K_CVT_LOAD, // converting load: lanes elements of type U (mem_elem bytes each) at p -> batch<T>: raw register bytes in reg_out
         K_CVT_STORE, // converting store: batch<T> from reg_in -> lanes elements of type U at p
         K_CVT_GATHER, // converting gather: batch<T>::gather(U const*, index)
